@@ -148,6 +148,47 @@ def shared_state(ctx: Ctx, roots: Iterable[str], what: str) -> None:
                     f"argument's type ({(typed + ctor)[0]}): a call answers with what an earlier call with an equal argument of another type produced", node=f.node)
         else:
             raise AnalysisError(f"{f.fq}: memoised with @{memo[0]}; whether equal arguments always give interchangeable results is not decided here")
+    # class-level mutable objects changed through an instance: one object shared by every instance of the class
+    seen_cls = set()
+    for fq in sorted(reach):
+        f = p.functions.get(fq)
+        if f is None or f.module.is_test or f.cls is None or f.cls.fq in seen_cls:
+            continue
+        seen_cls.add(f.cls.fq)
+        ci = f.cls
+        mutable = {}
+        for nm, v in ci.assigns.items():
+            if isinstance(v, (ast.List, ast.Dict, ast.Set, ast.ListComp, ast.DictComp, ast.SetComp)) or (
+                    isinstance(v, ast.Call) and isinstance(v.func, ast.Name) and v.func.id in ("list", "dict", "set", "deque", "defaultdict", "OrderedDict", "Counter", "bytearray")):
+                mutable[nm] = v
+        if not mutable:
+            continue
+        for m in ci.methods.values():
+            if not m.param_names() or "staticmethod" in m.decorators():
+                continue
+            sn = m.param_names()[0]
+            rebound = {n.attr for n in body_walk(m.node) if isinstance(n, ast.Attribute) and isinstance(n.ctx, ast.Store) and isinstance(n.value, ast.Name) and n.value.id == sn}
+            for node in body_walk(m.node):
+                hit = None
+                if isinstance(node, ast.Call) and isinstance(node.func, ast.Attribute) and node.func.attr in MUTATORS and isinstance(node.func.value, ast.Attribute) \
+                        and isinstance(node.func.value.value, ast.Name) and node.func.value.value.id == sn and node.func.value.attr in mutable:
+                    hit = node.func.value.attr
+                if isinstance(node, (ast.Assign, ast.AugAssign, ast.Delete)):
+                    for t in (node.targets if isinstance(node, (ast.Assign, ast.Delete)) else [node.target]):
+                        if isinstance(t, ast.Subscript) and isinstance(t.value, ast.Attribute) and isinstance(t.value.value, ast.Name) and t.value.value.id == sn and t.value.attr in mutable:
+                            hit = t.value.attr
+                if hit is None:
+                    continue
+                init = ci.methods.get("__init__")
+                init_rebinds = init is not None and any(isinstance(n, ast.Attribute) and isinstance(n.ctx, ast.Store) and isinstance(n.value, ast.Name) and n.value.id == init.param_names()[0]
+                                                        and n.attr == hit for n in body_walk(init.node))
+                if init_rebinds or hit in rebound:
+                    continue  # every instance gets its own object before this method can change it (judged leniently: any re-binding through self)
+                n_hits += 1
+                ctx.bad("R-STATE", m, f"{what}: {ci.name}.{hit} is one object shared by every {ci.name}",
+                        f"'{hit} = {src(mutable[hit], 40)}' in the class body creates a single object; {m.name}() changes it through {sn}.{hit} ({src(node, 60)}) and no instance ever gets its own: "
+                        f"what one {ci.name} stores there is what every other one reads", node=node)
+                break
     ctx.floor(f"functions examined for shared state ({what})", n_funcs, 1)
     if not n_hits:
         ctx.ok("R-STATE", (p.func(next(iter(roots))).module.name, ""), f"{what}: no function in the call tree reads module-level state that is changed at run time", f"{n_funcs} functions, {len(state)} state objects in the package")
